@@ -76,7 +76,7 @@ def generate(rng, tier):
     ops.sort(key=lambda o: o["t"])
     faults = {"max_delay_us": rng.choice([0, 1000, 20000, 100000]), "loop_delay_us": rng.choice([0, 100, 1000]),
               "dup_p": rng.choice([0.0, 0.0, 0.1]), "b2b_p": rng.choice([0.0, 0.0, 0.1])}
-    return {"ops": ops, "faults": faults, "victim": svcs[victim]["name"], "mode": mode, "t_w": t_w,
+    return {"timer_slop_us": rng.choice([0, 0, 1, 50, 300]), "ops": ops, "faults": faults, "victim": svcs[victim]["name"], "mode": mode, "t_w": t_w,
             "end": t_w + 4.0, "svcs": svcs}
 
 
@@ -101,7 +101,8 @@ def _query_op(rng, t, svcs, victim):
 
 def execute(scenario, seed, overrides=None):
     out = runner.Outcome()
-    w = World(seed, FaultConfig(**scenario.get("faults", {})), overrides)
+    w = World(seed, FaultConfig(**scenario.get("faults", {})), overrides,
+              timer_slop=scenario.get("timer_slop_us", 0) / 1e6)
     try:
         drv = Driver(w, scenario)
 
